@@ -201,20 +201,31 @@ def wrap_random(rng, d, steps):
 
 
 def nest_shape(cs, lv, hid):
-    """(type, level, hidden, map, markup) of the tokens C06_containers_within_containers states (wrapc);
-    cs: list of "Q" or (marker, spaces)"""
+    """(type, level, hidden, map, markup, info, attrs) of the tokens C06_containers_within_containers states (wrapc);
+    cs: list of "Q", (bullet, spaces) or (digits, delimiter, spaces)"""
     if not cs:
-        return [("paragraph_open", lv, hid, (0, 1), ""), ("inline", lv + 1, False, (0, 1), ""), ("paragraph_close", lv, hid, None, "")]
+        return [("paragraph_open", lv, hid, (0, 1), "", "", {}), ("inline", lv + 1, False, (0, 1), "", "", {}),
+                ("paragraph_close", lv, hid, None, "", "", {})]
     c, r = cs[0], cs[1:]
     if c == "Q":
-        return [("blockquote_open", lv, False, (0, 1), ">")] + nest_shape(r, lv + 1, False) + [("blockquote_close", lv, False, None, ">")]
-    m = c[0]
-    return ([("bullet_list_open", lv, False, (0, 1), m), ("list_item_open", lv + 1, False, (0, 1), m)] + nest_shape(r, lv + 2, True)
-            + [("list_item_close", lv + 1, False, None, m), ("bullet_list_close", lv, False, None, m)])
+        return ([("blockquote_open", lv, False, (0, 1), ">", "", {})] + nest_shape(r, lv + 1, False)
+                + [("blockquote_close", lv, False, None, ">", "", {})])
+    if len(c) == 2:
+        m = c[0]
+        return ([("bullet_list_open", lv, False, (0, 1), m, "", {}), ("list_item_open", lv + 1, False, (0, 1), m, "", {})]
+                + nest_shape(r, lv + 2, True) + [("list_item_close", lv + 1, False, None, m, "", {}), ("bullet_list_close", lv, False, None, m, "", {})])
+    ds, dl = c[0], c[1]
+    attrs = {} if int(ds) == 1 else {"start": int(ds)}
+    return ([("ordered_list_open", lv, False, (0, 1), dl, "", attrs), ("list_item_open", lv + 1, False, (0, 1), dl, ds, {})]
+            + nest_shape(r, lv + 2, True) + [("list_item_close", lv + 1, False, None, dl, "", {}), ("ordered_list_close", lv, False, None, dl, "", {})])
 
 
 def nest_prefix(cs):
-    return "".join("> " if c == "Q" else c[0] + " " * c[1] for c in cs)
+    return "".join("> " if c == "Q" else (c[0] + " " * c[1] if len(c) == 2 else c[0] + c[1] + " " * c[2]) for c in cs)
+
+
+def nest_got(md, d):
+    return [(t.type, t.level, t.hidden, t.map if t.map is None else tuple(t.map), t.markup, t.info, dict(t.attrs)) for t in md.parse(d)]
 
 
 def run(ctx) -> int:
@@ -233,7 +244,8 @@ def run(ctx) -> int:
     # states is also checked on the implementation directly)
     import itertools
     nest_bad = None
-    ctrs = ["Q"] + [(m, k) for m in "-*+" for k in (1, 2, 3, 4)]
+    ctrs = (["Q"] + [(m, k) for m in "-*+" for k in (1, 2, 3, 4)]
+            + [(ds, dl, k) for ds in ("1", "2", "007", "10", "999999999", "0") for dl in ".)" for k in (1, 4)])
     nrng = rng_for("C06", seed, "nest")
     families = [cs for depth in range(0, 3) for cs in itertools.product(ctrs, repeat=depth)]          # all lists up to depth 2
     families += [tuple(nrng.choice(ctrs) for _ in range(nrng.randrange(3, 7))) for _ in range(60 if q else 3000)]  # deeper, sampled
@@ -243,7 +255,7 @@ def run(ctx) -> int:
         if idx % 3 == 0 or len(cs) <= 1:
             cases.append((Q_CFGS[0], "parse", d, None))
         if nest_bad is None:
-            got = [(t.type, t.level, t.hidden, t.map if t.map is None else tuple(t.map), t.markup) for t in mds[0][1].parse(d)]
+            got = nest_got(mds[0][1], d)
             if got != nest_shape(list(cs), 0, False):
                 nest_bad = {"config": Q_CFGS[0], "law": "containers-within-containers", "D": line + "\n", "containers": [str(c) for c in cs],
                             "tokens": [list(map(str, g)) for g in got]}
@@ -326,7 +338,7 @@ def replay(body) -> int:
     elif body.get("law") == "containers-within-containers":
         import ast
         cs = [c if c == "Q" else ast.literal_eval(c) for c in body["containers"]]
-        got = [(t.type, t.level, t.hidden, t.map if t.map is None else tuple(t.map), t.markup) for t in md.parse(nest_prefix(cs) + body["D"])]
+        got = nest_got(md, nest_prefix(cs) + body["D"])
         d = None if got == nest_shape(cs, 0, False) else {"tokens": got, "stated": nest_shape(cs, 0, False)}
     print("C06 on implementation:", "VIOLATED " + json.dumps(d, default=str, ensure_ascii=False)[:1200] if d else "holds / not replayable")
     return 1 if d else 0
